@@ -178,6 +178,11 @@ impl Prop for C05 {
         ]
     }
 
+    fn extra(&self, tier: Tier, _seed: u64, ctx: &crate::runner::ExtraCtx) -> crate::runner::ExtraOut {
+        // bounded-exhaustive enumeration: every key set over a tiny alphabet x every probe over it
+        crate::smallscope::prefixes(tier, ctx.threads)
+    }
+
     fn run(&self, case: &Case, obs: &mut Obs) -> Check {
         let entries = case.spec.src.entries();
         let bytes = write_file(&case.spec.conf, &entries)?;
